@@ -582,7 +582,39 @@ func (ex *Exec) fsIntrinsic(fn *ssa.Function, name string, args []Value) (Value,
 			return Iface{}, true
 		}
 		srcObj, ok := v.(*StructObj)
-		if !ok || len(srcObj.fields) != len(dst.fields) {
+		if !ok {
+			return ex.fsErr("json"), true
+		}
+		if !types.Identical(srcObj.typ, dst.typ) {
+			// the document was produced from another record type (a message taken for one of another kind): as in
+			// encoding/json, members are matched by name, unknown ones are ignored, a member of the wrong kind is an error
+			tagOf := func(st *types.Struct, i int) string {
+				t := strings.Split(reflect.StructTag(st.Tag(i)).Get("json"), ",")[0]
+				if t == "" {
+					t = st.Field(i).Name()
+				}
+				return t
+			}
+			var jerr Value = Iface{}
+			for i := range dst.fields {
+				ti := tagOf(dst.typ, i)
+				if ti == "-" {
+					continue
+				}
+				for j := range srcObj.fields {
+					if tagOf(srcObj.typ, j) != ti {
+						continue
+					}
+					if !types.Identical(srcObj.typ.Field(j).Type(), dst.typ.Field(i).Type()) {
+						jerr = ex.fsErr("json: cannot unmarshal member " + ti)
+						continue
+					}
+					ex.copyInto(dst.fields[i], ex.cloneLoc(srcObj.fields[j]))
+				}
+			}
+			return jerr, true
+		}
+		if len(srcObj.fields) != len(dst.fields) {
 			return ex.fsErr("json"), true
 		}
 		for i := range dst.fields {
